@@ -112,7 +112,7 @@ def main():
         })
     manifest = {
         "version": 1,
-        "setup_cmd": "cd /verif/harness && CARGO_NET_OFFLINE=true cargo build --release --offline && CARGO_NET_OFFLINE=true cargo build --profile checked --offline && /verif/tools/pre_C20.sh quick",
+        "setup_cmd": "cd /verif/harness && CARGO_NET_OFFLINE=true CARGO_TARGET_DIR=/verif/target cargo build --release --offline && /verif/tools/pre_C17.sh && /verif/tools/pre_C20.sh quick",
         "hooks": {
             "guard": "cargo feature `verif` of exmex (off by default)",
             "enable": "the harness depends on exmex by path=/repo with features partial,value,serde,verif; every ./check rebuilds it from /repo's working tree",
